@@ -72,7 +72,12 @@ def run(ck):
         ["module A\nstruct S { a: Missing, b: Sequence<Missing>, c: int32 }\n"],
         ["module A\nunchecked enum E { X(a: Sequence<E2>), Y }\nunchecked enum E2 { }\n", "module A\ninterface J { op() -> (a: E, b: Dictionary<string, E?>) }\n"],
     ]
+    special.append(["module Lonely\n"])
+    special.append(["[x::attr] module Lonely::Nested\n", "module Other\nstruct S { a: int32 }\n"])
     texts = [slicegen.render(p) for p in progs] + special
+    for i, ts in enumerate(texts):      # files that declare a module and nothing else
+        if rng.random() < 0.15:
+            ts.insert(rng.randrange(len(ts) + 1), rng.choice(["module Only%d\n", "[x::a] module Only%d\n", "[[x::f]]\nmodule Only%d::Inner\n"]) % i)
     o = core.run_impl("visit", ["visit - " + " ".join(hx(t) for t in ts) for ts in texts], chunk=200, timeout=120)
     mlines, meta = [], []
     for ts, oo in zip(texts, o):
